@@ -2,7 +2,7 @@
    Property theorems only.  [the_table] is REGENERATED from the Go source on every check
    (Gen/GenesisTable.v); the finite theorems are by computation over it, the lifting lemmas are
    generic (Proofs/GenesisProofs.v).  The property is false for the (module, prefix) pairs listed in
-   [known_holes] (classes kf_C20 3..6, 8..11, 14..16); each class has a [_refuted] statement, and
+   [known_holes] (classes kf_C20 3..6, 8..11, 14..19); each class has a [_refuted] statement, and
    the positive theorems are stated on the complement.
    fixed: property=C20 f97a387 collector ExportGenesis emitted zero-valued net-fee records (class 1)
    fixed: property=C20 52f646d auctionsV2 InitGenesis reset the exported auction id and user bid id
@@ -151,8 +151,8 @@ Theorem c20_known_holes_refuted : forallb hole_is_hole known_holes = true.
 Proof. exact holes_are_holes. Qed.
 Print Assumptions c20_known_holes_refuted.
 
-(* classes 3, 6, 8, 11, 15, 16 (and the non-counter prefixes of 14): a live prefix that no genesis
-   field carries comes back empty *)
+(* classes 3, 6, 8, 11, 15, 16, 17, 19 (and the non-counter prefixes of 14): a live prefix that no
+   genesis field carries comes back empty *)
 Theorem c20_lost_refuted : forall p dv,
   In p prefixes -> classify the_table (p_mod p) (p_byte p) = CovLost ->
   exists s, get (roundtrip dv the_table (p_mod p) s) (p_byte p) <> get s (p_byte p).
@@ -188,6 +188,16 @@ Theorem c20_absent_counters_refuted :
   exists items, restored_value RAbsent 1 items = None /\ In (next_id 0) (ids items).
 Proof. repeat split; try (vm_compute; reflexivity). apply absent_restore_collides. Qed.
 Print Assumptions c20_absent_counters_refuted.
+
+(* class 18: the id counters of the external reward programmes for lockers and for vaults are never
+   written by rewards.InitGenesis although the programmes themselves (prefixes 19, 20) round-trip: with
+   programme 1 alive the counter reads 0 and the next programme is stored under id 1 again *)
+Theorem c20_ext_reward_ids_refuted :
+  counter_restore the_table "rewards" 21 = RAbsent /\ counter_restore the_table "rewards" 22 = RAbsent /\
+  cover_ok (classify the_table "rewards" 19) = true /\ cover_ok (classify the_table "rewards" 20) = true /\
+  exists items, restored_value RAbsent 1 items = None /\ In (next_id 0) (ids items).
+Proof. repeat split; try (vm_compute; reflexivity). apply absent_restore_collides. Qed.
+Print Assumptions c20_ext_reward_ids_refuted.
 
 (* class 10: the vault id is recomputed as the maximum LIVE vault id while vaults can be deleted:
    after vault 2 was closed the counter comes back as 1 and id 2 is handed out again (no collision
